@@ -263,7 +263,7 @@ func init() {
 	register(&Prop{
 		ID: "C29", Title: "Bounding box and SVG viewport enclose everything drawn",
 		Patterns:    []string{"./d2target", "./d2renderers/d2svg", "./lib/geo", "./lib/label"},
-		Explanation: "Decides: (1) the bounds reported by d2target (Diagram.BoundingBox, NestedBoundingBox and helpers) and used by d2svg are running minima/maxima updated only with min/max of themselves, in one direction each, with terms of their own axis, and never overwritten inside the accumulating loops; (2) axis consistency of every term fed to them and of d2svg's viewport arithmetic; (3) NestedBoundingBox folds over all three board lists (layers, scenarios, steps) with all four bounds; (4) the viewport of d2svg is the bounding box moved out by the same padding on both sides of each axis (left = x − pad, width = extent + 2·pad, likewise vertically).",
+		Explanation: "Decides: (1) the bounds reported by d2target (Diagram.BoundingBox, NestedBoundingBox and helpers) and used by d2svg are running minima/maxima updated only with min/max of themselves, in one direction each, with terms of their own axis, and never overwritten inside the accumulating loops; (2) axis consistency of every term fed to them and of d2svg's viewport arithmetic; (3) NestedBoundingBox folds over all three board lists (layers, scenarios, steps) with all four bounds; (4) the viewport of d2svg is the bounding box moved out by the same padding on both sides of each axis (left = x − pad, width = extent + 2·pad, likewise vertically).; the loops of BoundingBox and NestedBoundingBox over shapes, connections, route points and nested boards skip nothing (no continue, break or return in them).",
 		NotCovered:  geomNotCovered + "; that every drawn element is among the terms fed to the bounds (drawing code and bounds code are separate)",
 		Technique:   "static analysis: monotone-accumulator check, name-typed axis inference, linear-form check of the viewport",
 		Run:         runC29,
@@ -542,6 +542,16 @@ func runC29(c *core.Check) {
 	runBoundsClause(c, "C29.bounds", pk, 8)
 	runAxisClause(c, "C29.axis", pk, nil, 300)
 	runMirrorClause(c, "C29.mirror", pk, 0)
+	c.Rule("C29.visit-all", "the bounding-box loops visit every shape, connection and nested board")
+	nv := 0
+	for _, name := range []string{"BoundingBox", "NestedBoundingBox"} {
+		if fi := mustFunc(c, "d2target", "Diagram", name); fi != nil {
+			nv += loopsVisitAll(c, "C29.visit-all", fi, []string{"Shapes", "Connections", "Layers", "Scenarios", "Steps", "Route"}, "whatever is skipped is not inside the reported bounds, so it is drawn outside the viewport")
+		}
+	}
+	if nv < 4 {
+		c.Fail("C29.visit-all", "visit-all:inventory", token.NoPos, fmt.Sprintf("only %d loops over shapes/connections/boards found in the bounding-box functions", nv))
+	}
 	if nb := mustFunc(c, "d2target", "Diagram", "NestedBoundingBox"); nb != nil {
 		lists := map[string]int{}
 		ast.Inspect(nb.Decl.Body, func(n ast.Node) bool {
